@@ -35,6 +35,9 @@ def shards(tier):
     out += [("setpoint", 0, 0, 0)]
     out += [("byte", i, 0, 0) for i in (1, 2, 3, 7, 8, 9, 10, 13, 14, 19, 21)]
     out += [("length", 0, 0, 0)]
+    if tier == "thorough":
+        out += [("setpoint-full", lo, 0, 0) for lo in range(0, 256, 16)]
+        out += [("flagpairs", i, j, 0) for i, j in ((8, 9), (8, 10), (9, 10), (1, 2), (3, 7), (13, 14), (19, 21), (2, 10))]
     return out
 
 
@@ -152,6 +155,22 @@ def run_shard(shard, tier) -> Stats:
                 p[2] = (p[2] & 0xE0) | prim
                 p[13] = (p[13] & 0xE0) | alt
                 one({"kind": "setpoint", "alt": alt, "primary": prim}, p)
+    elif kind == "setpoint-full":
+        for b2 in range(a, a + 16):
+            for b13 in range(256):
+                p = base_payload()
+                p[2] = b2
+                p[13] = b13
+                one({"kind": "setpoint-full", "byte2": b2, "byte13": b13}, p)
+    elif kind == "flagpairs":
+        grid = sorted(set([0, 1, 2, 4, 8, 16, 32, 64, 128, 255, 0x7F, 0xF0, 0x0F, 0x55, 0xAA, 0x70, 0x71, 0x33, 0xCC, 0x81, 0x42, 0x24, 0x18, 0xE0,
+                           0x07, 0xFE, 0xEF, 0x11, 0x22, 0x44, 0x88, 0x99]))
+        for va in grid:
+            for vb in grid:
+                p = base_payload()
+                p[a] = va
+                p[b] = vb
+                one({"kind": f"flagpair{a}/{b}", "values": [va, vb]}, p)
     elif kind == "byte":
         for v in range(256):
             for variant in (0, 1):
